@@ -65,6 +65,19 @@ def gen(tier, seed):
             cls = 'ext-unclamped<2^255'
         yield 'ed_ext_pub %s #%s' % (bytes(e).hex(), cls)
         yield 'ed_sign_ext %s %s #%s' % (bytes(e).hex(), rng.data(rng.choice([0, 1, 80, 300])), cls)
+    # clamped extended scalars a = t + k*L whose residue t modulo the group order is an edge value (0, 1, 2^252 +- j, L - j): what
+    # the implementation does with a (reduce it, recode it into signed nibbles, multiply) sees its corner cases
+    L_ = o.L
+    targets = [0, 1, 2, 7, 8, 9, (1 << 252) - 1, (1 << 252), (1 << 252) + 1, (1 << 252) + 4, (1 << 252) + 8, L_ - 1, L_ - 2, L_ - 7, L_ - 8, L_ - 9, (1 << 251), (1 << 128)]
+    targets += [(1 << 252) + rng.below(L_ - (1 << 252)) for _ in range(10 if thorough else 4)] + [rng.below(L_) for _ in range(6)]
+    targets = sorted(set((t + d) % L_ for t in targets for d in range(-8, 9)))
+    for t in targets:
+        for k in range(4, 8):
+            a = t + k * L_
+            if a % 8 == 0 and (1 << 254) <= a < (1 << 255):
+                ext = a.to_bytes(32, 'little') + rng.bytes(32)
+                yield 'ed_ext_pub %s #ext-clamped-crafted-modL' % ext.hex()
+                yield 'ed_sign_ext %s %s #ext-clamped-crafted-modL' % (ext.hex(), rng.data(rng.choice([0, 5, 100])))
     for _ in range(12 if thorough else 3):
         yield 'ed_sign %s %s #long' % (rng.bytes(32).hex(), rng.data(rng.rng(1024, 65536)))
 
